@@ -11,9 +11,10 @@
 /* an owned buffer in an arbitrary state satisfying the representation
  * invariant: arbitrary capacity (<= 2^47), arbitrary fill, arbitrary content;
  * plus the ghost indices */
-#define MK_BUF(z) \
+#define MK_BUF(z) MK_BUF_CAP(z, VERIF_OBJ_MAX)
+#define MK_BUF_CAP(z, cap) \
   IN_SIZE(in_alloc); IN_SIZE(in_size); IN_SIZE(in_j); IN_SIZE(in_k); ldb_buffer_t z; \
-  ASSUME(in_size <= in_alloc && in_alloc <= VERIF_OBJ_MAX); \
+  ASSUME(in_size <= in_alloc && in_alloc <= (cap)); \
   z.alloc = in_alloc; z.size = in_size; z.data = in_alloc ? malloc(in_alloc) : NULL; \
   ASSUME(in_alloc == 0 || z.data != NULL); \
   g_bj = in_j; g_bk = in_k; g_bold = (in_j < in_size) ? z.data[in_j] : 0; \
@@ -23,6 +24,10 @@
   IN_SIZE(in_xn); ASSUME(in_xn <= (cap)); IN_BUF(src, in_xn); SNAP_BUF(src, in_xn); ldb_slice_t x; \
   x.data = src; x.size = in_xn; x.alloc = 0
 
+/* the vacuity canary is placed on the small-size paths only: CBMC's trace
+ * printer runs out of memory when the counterexample it prints for the
+ * (always failing) canary contains arrays of 2^40+ bytes */
+#define CANARY_SMALL(cond) do { if (cond) { CANARY(); } } while (0)
 #define CHK_RI(z, what) CHECK(BUF_RI(&z), what ": representation invariant size <= alloc, data valid for alloc bytes")
 #define CHK_KEEP(z, what) CHECK(!(in_j < in_size) || z.data[in_j] == g_bold, what ": bytes already in the buffer are kept")
 
@@ -106,19 +111,21 @@ void h_slice_write(void) {
   CHECK(r == out + V32_SIZE(in_xn) + in_xn, "slice_write: emits prefix + payload bytes exactly");
   CHECK(LPS_PREFIX_IS(out, in_xn), "slice_write: prefix is LEB128(length)");
   CHECK(!(in_k < in_xn) || out[V32_SIZE(in_xn) + in_k] == src[in_k], "slice_write: payload bytes follow the prefix");
-  CANARY();
+  CANARY_SMALL(in_xn <= 64);
 }
 
-void h_slice_export(void) {
-  MK_BUF(z); MK_SRC(x, VERIF_U32_MAX);
-  ldb_slice_export(&z, &x);
-  CHK_RI(z, "slice_export");
-  CHECK(z.size == in_size + V32_SIZE(in_xn) + in_xn, "slice_export: size grows by prefix + payload");
-  CHK_KEEP(z, "slice_export");
-  CHECK(LPS_PREFIX_IS(z.data + in_size, in_xn), "slice_export: LEB128(length) lands at the old end");
-  CHECK(!(in_k < in_xn) || z.data[in_size + V32_SIZE(in_xn) + in_k] == src[in_k], "slice_export: payload follows the prefix");
-  CANARY();
+#define H_SLICE_EXPORT(fname, cap, srccap) void fname(void) { \
+  MK_BUF_CAP(z, cap); MK_SRC(x, srccap); \
+  ldb_slice_export(&z, &x); \
+  CHK_RI(z, "slice_export"); \
+  CHECK(z.size == in_size + V32_SIZE(in_xn) + in_xn, "slice_export: size grows by prefix + payload"); \
+  CHK_KEEP(z, "slice_export"); \
+  CHECK(LPS_PREFIX_IS(z.data + in_size, in_xn), "slice_export: LEB128(length) lands at the old end"); \
+  CHECK(!(in_k < in_xn) || z.data[in_size + V32_SIZE(in_xn) + in_k] == src[in_k], "slice_export: payload follows the prefix"); \
+  CANARY_SMALL(in_alloc <= 64 && in_xn <= 64); \
 }
+H_SLICE_EXPORT(h_slice_export, VERIF_OBJ_MAX, VERIF_U32_MAX)
+H_SLICE_EXPORT(h_slice_export_b, 4096, 4096)
 
 /* ------------------------------------------------------------------ buffer */
 
@@ -128,14 +135,14 @@ void h_buffer_clear(void) {
   MK_BUF(z);
   ldb_buffer_clear(&z);
   CHECK(z.data == NULL && z.size == 0 && z.alloc == 0, "buffer_clear: empty buffer, storage released");
-  CANARY();
+  CANARY_SMALL(in_alloc <= 64);
 }
 
 void h_buffer_reset(void) {
   MK_BUF(z);
   ldb_buffer_reset(&z);
   CHECK(z.size == 0 && z.data == old_data && z.alloc == in_alloc, "buffer_reset: size 0, storage kept");
-  CANARY();
+  CANARY_SMALL(in_alloc <= 64);
 }
 
 void h_buffer_reinit(void) {
@@ -144,7 +151,7 @@ void h_buffer_reinit(void) {
   ldb_buffer_reinit(&z, in_zn);
   CHK_RI(z, "buffer_reinit");
   CHECK(z.size == 0 && z.alloc == in_zn, "buffer_reinit: empty with exactly the requested capacity");
-  CANARY();
+  CANARY_SMALL(in_alloc <= 64 && in_zn <= 64);
 }
 
 void h_buffer_grow(void) {
@@ -154,7 +161,7 @@ void h_buffer_grow(void) {
   CHK_RI(z, "buffer_grow");
   CHECK(r == z.data && z.size == in_size && z.alloc == (in_zn > in_alloc ? in_zn : in_alloc), "buffer_grow: capacity = max(old, requested), size unchanged");
   CHK_KEEP(z, "buffer_grow");
-  CANARY();
+  CANARY_SMALL(in_alloc <= 64 && in_zn <= 64);
 }
 
 void h_buffer_expand(void) {
@@ -165,7 +172,7 @@ void h_buffer_expand(void) {
   CHECK(z.size == in_size && z.alloc >= in_size + in_xn, "buffer_expand: room for xn more bytes, size unchanged");
   CHECK(r == (z.alloc == 0 ? (uint8_t *)NULL : z.data + in_size), "buffer_expand: returns the write position (end of content)");
   CHK_KEEP(z, "buffer_expand");
-  CANARY();
+  CANARY_SMALL(in_alloc <= 64 && in_xn <= 64);
 }
 
 void h_buffer_resize(void) {
@@ -175,7 +182,7 @@ void h_buffer_resize(void) {
   CHK_RI(z, "buffer_resize");
   CHECK(r == z.data && z.size == in_zn, "buffer_resize: size = requested");
   CHECK(!(in_j < in_size && in_j < in_zn) || z.data[in_j] == g_bold, "buffer_resize: surviving prefix is kept");
-  CANARY();
+  CANARY_SMALL(in_alloc <= 64 && in_zn <= 64);
 }
 
 void h_buffer_set(void) {
@@ -184,7 +191,7 @@ void h_buffer_set(void) {
   CHK_RI(z, "buffer_set");
   CHECK(z.size == in_xn, "buffer_set: size = source length");
   CHECK(!(in_k < in_xn) || z.data[in_k] == src[in_k], "buffer_set: content = source bytes");
-  CANARY();
+  CANARY_SMALL(in_alloc <= 64 && in_xn <= 64);
 }
 
 void h_buffer_copy(void) {
@@ -194,7 +201,7 @@ void h_buffer_copy(void) {
   CHECK(z.size == in_xn, "buffer_copy: size = source length");
   CHECK(!(in_k < in_xn) || z.data[in_k] == src[in_k], "buffer_copy: content = source bytes");
   CHECK(x.data == src && x.size == in_xn && x.alloc == 0, "buffer_copy: source untouched");
-  CANARY();
+  CANARY_SMALL(in_alloc <= 64 && in_xn <= 64);
 }
 
 void h_buffer_swap(void) {
@@ -223,7 +230,7 @@ void h_buffer_rwset(void) {
   ldb_buffer_t z; IN_SIZE(in_zn); uint8_t m;
   ldb_buffer_rwset(&z, &m, in_zn);
   CHECK(z.data == &m && z.size == 0 && z.alloc == in_zn, "buffer_rwset: empty buffer over caller storage");
-  CANARY();
+  CANARY_SMALL(in_zn <= 64);
 }
 
 void h_buffer_push(void) {
@@ -232,7 +239,7 @@ void h_buffer_push(void) {
   CHK_RI(z, "buffer_push");
   CHECK(z.size == in_size + 1 && z.data[in_size] == (uint8_t)(in_x & 0xff), "buffer_push: one byte appended at the old end");
   CHK_KEEP(z, "buffer_push");
-  CANARY();
+  CANARY_SMALL(in_alloc <= 64);
 }
 
 void h_buffer_append(void) {
@@ -242,7 +249,7 @@ void h_buffer_append(void) {
   CHECK(z.size == in_size + in_xn, "buffer_append: size grows by the appended length");
   CHK_KEEP(z, "buffer_append");
   CHECK(!(in_k < in_xn) || z.data[in_size + in_k] == src[in_k], "buffer_append: appended bytes land at [old size, old size + n)");
-  CANARY();
+  CANARY_SMALL(in_alloc <= 64 && in_xn <= 64);
 }
 
 void h_buffer_concat(void) {
@@ -252,7 +259,7 @@ void h_buffer_concat(void) {
   CHECK(z.size == in_size + in_xn, "buffer_concat: size grows by the slice length");
   CHK_KEEP(z, "buffer_concat");
   CHECK(!(in_k < in_xn) || z.data[in_size + in_k] == src[in_k], "buffer_concat: slice bytes land at [old size, old size + n)");
-  CANARY();
+  CANARY_SMALL(in_alloc <= 64 && in_xn <= 64);
 }
 
 void h_buffer_pad(void) {
@@ -264,7 +271,7 @@ void h_buffer_pad(void) {
   CHK_KEEP(z, "buffer_pad");
   CHECK(!(in_k < in_xn) || z.data[in_size + in_k] == 0, "buffer_pad: padding bytes are zero");
   CHECK(r == (z.alloc == 0 ? (uint8_t *)NULL : z.data + in_size), "buffer_pad: returns the start of the padding");
-  CANARY();
+  CANARY_SMALL(in_alloc <= 64 && in_xn <= 64);
 }
 
 void h_buffer_fixed32(void) {
@@ -273,34 +280,40 @@ void h_buffer_fixed32(void) {
   CHK_RI(z, "buffer_fixed32");
   CHECK(z.size == in_size + 4 && IS_LE32(z.data + in_size, in_x), "buffer_fixed32: 4 little-endian bytes at the old end");
   CHK_KEEP(z, "buffer_fixed32");
-  CANARY();
+  CANARY_SMALL(in_alloc <= 64);
 }
-void h_buffer_fixed64(void) {
-  MK_BUF(z); IN_U64(in_x);
-  ldb_buffer_fixed64(&z, in_x);
-  CHK_RI(z, "buffer_fixed64");
-  CHECK(z.size == in_size + 8 && IS_LE64(z.data + in_size, in_x), "buffer_fixed64: 8 little-endian bytes at the old end");
-  CHK_KEEP(z, "buffer_fixed64");
-  CANARY();
+#define H_BUFFER_FIXED64(fname, cap, srccap) void fname(void) { \
+  MK_BUF_CAP(z, cap); IN_U64(in_x); \
+  ldb_buffer_fixed64(&z, in_x); \
+  CHK_RI(z, "buffer_fixed64"); \
+  CHECK(z.size == in_size + 8 && IS_LE64(z.data + in_size, in_x), "buffer_fixed64: 8 little-endian bytes at the old end"); \
+  CHK_KEEP(z, "buffer_fixed64"); \
+  CANARY_SMALL(in_alloc <= 64); \
 }
-void h_buffer_varint32(void) {
-  MK_BUF(z); IN_U32(in_x);
-  ldb_buffer_varint32(&z, in_x);
-  CHK_RI(z, "buffer_varint32");
-  CHECK(z.size == in_size + V32_SIZE(in_x), "buffer_varint32: size grows by the LEB128 length");
-  CHECK(V_WELLFORMED(z.data + in_size, V32_SIZE(in_x)) && V32_VAL(z.data + in_size, V32_SIZE(in_x)) == in_x, "buffer_varint32: LEB128(x) at the old end");
-  CHK_KEEP(z, "buffer_varint32");
-  CANARY();
+H_BUFFER_FIXED64(h_buffer_fixed64, VERIF_OBJ_MAX, VERIF_U32_MAX)
+H_BUFFER_FIXED64(h_buffer_fixed64_b, 4096, 4096)
+#define H_BUFFER_VARINT32(fname, cap, srccap) void fname(void) { \
+  MK_BUF_CAP(z, cap); IN_U32(in_x); \
+  ldb_buffer_varint32(&z, in_x); \
+  CHK_RI(z, "buffer_varint32"); \
+  CHECK(z.size == in_size + V32_SIZE(in_x), "buffer_varint32: size grows by the LEB128 length"); \
+  CHECK(V_WELLFORMED(z.data + in_size, V32_SIZE(in_x)) && V32_VAL(z.data + in_size, V32_SIZE(in_x)) == in_x, "buffer_varint32: LEB128(x) at the old end"); \
+  CHK_KEEP(z, "buffer_varint32"); \
+  CANARY_SMALL(in_alloc <= 64); \
 }
-void h_buffer_varint64(void) {
-  MK_BUF(z); IN_U64(in_x);
-  ldb_buffer_varint64(&z, in_x);
-  CHK_RI(z, "buffer_varint64");
-  CHECK(z.size == in_size + V64_SIZE(in_x), "buffer_varint64: size grows by the LEB128 length");
-  CHECK(V_WELLFORMED(z.data + in_size, V64_SIZE(in_x)) && V64_VAL(z.data + in_size, V64_SIZE(in_x)) == in_x, "buffer_varint64: LEB128(x) at the old end");
-  CHK_KEEP(z, "buffer_varint64");
-  CANARY();
+H_BUFFER_VARINT32(h_buffer_varint32, VERIF_OBJ_MAX, VERIF_U32_MAX)
+H_BUFFER_VARINT32(h_buffer_varint32_b, 4096, 4096)
+#define H_BUFFER_VARINT64(fname, cap, srccap) void fname(void) { \
+  MK_BUF_CAP(z, cap); IN_U64(in_x); \
+  ldb_buffer_varint64(&z, in_x); \
+  CHK_RI(z, "buffer_varint64"); \
+  CHECK(z.size == in_size + V64_SIZE(in_x), "buffer_varint64: size grows by the LEB128 length"); \
+  CHECK(V_WELLFORMED(z.data + in_size, V64_SIZE(in_x)) && V64_VAL(z.data + in_size, V64_SIZE(in_x)) == in_x, "buffer_varint64: LEB128(x) at the old end"); \
+  CHK_KEEP(z, "buffer_varint64"); \
+  CANARY_SMALL(in_alloc <= 64); \
 }
+H_BUFFER_VARINT64(h_buffer_varint64, VERIF_OBJ_MAX, VERIF_U32_MAX)
+H_BUFFER_VARINT64(h_buffer_varint64_b, 4096, 4096)
 
 void h_buffer_size(void) {
   IN_SIZE(in_xn); ldb_buffer_t x; size_t r;
@@ -320,19 +333,21 @@ void h_buffer_write(void) {
   CHECK(r == out + V32_SIZE(in_xn) + in_xn, "buffer_write: emits prefix + payload bytes exactly");
   CHECK(LPS_PREFIX_IS(out, in_xn), "buffer_write: prefix is LEB128(length)");
   CHECK(!(in_k < in_xn) || out[V32_SIZE(in_xn) + in_k] == src[in_k], "buffer_write: payload bytes follow the prefix");
-  CANARY();
+  CANARY_SMALL(in_xn <= 64);
 }
 
-void h_buffer_export(void) {
-  MK_BUF(z); MK_SRC(x, VERIF_U32_MAX);
-  ldb_buffer_export(&z, &x);
-  CHK_RI(z, "buffer_export");
-  CHECK(z.size == in_size + V32_SIZE(in_xn) + in_xn, "buffer_export: size grows by prefix + payload");
-  CHK_KEEP(z, "buffer_export");
-  CHECK(LPS_PREFIX_IS(z.data + in_size, in_xn), "buffer_export: LEB128(length) lands at the old end");
-  CHECK(!(in_k < in_xn) || z.data[in_size + V32_SIZE(in_xn) + in_k] == src[in_k], "buffer_export: payload follows the prefix");
-  CANARY();
+#define H_BUFFER_EXPORT(fname, cap, srccap) void fname(void) { \
+  MK_BUF_CAP(z, cap); MK_SRC(x, srccap); \
+  ldb_buffer_export(&z, &x); \
+  CHK_RI(z, "buffer_export"); \
+  CHECK(z.size == in_size + V32_SIZE(in_xn) + in_xn, "buffer_export: size grows by prefix + payload"); \
+  CHK_KEEP(z, "buffer_export"); \
+  CHECK(LPS_PREFIX_IS(z.data + in_size, in_xn), "buffer_export: LEB128(length) lands at the old end"); \
+  CHECK(!(in_k < in_xn) || z.data[in_size + V32_SIZE(in_xn) + in_k] == src[in_k], "buffer_export: payload follows the prefix"); \
+  CANARY_SMALL(in_alloc <= 64 && in_xn <= 64); \
 }
+H_BUFFER_EXPORT(h_buffer_export, VERIF_OBJ_MAX, VERIF_U32_MAX)
+H_BUFFER_EXPORT(h_buffer_export_b, 4096, 4096)
 
 void h_buffer_read(void) {
   MK_BUF(z); IN_SIZE(in_n); IN_BUF(buf, in_n); SNAP_BUF(buf, in_n);
@@ -343,7 +358,7 @@ void h_buffer_read(void) {
   CHECK(POST_LPS_CURSOR(r, p, n, buf, in_n), "buffer_read: cursor advanced by prefix + length");
   CHECK(POST_LPS_FAIL(r, p, n, buf, in_n), "buffer_read: on failure the cursor is still inside the input");
   CHECK(POST_BUFREAD(r, &z, buf, in_n, in_size, in_alloc, old_data), "buffer_read: buffer = copy of the payload on success, untouched on failure");
-  CANARY();
+  CANARY_SMALL(in_alloc <= 64 && in_n <= 64);
 }
 void h_buffer_slurp(void) {
   MK_BUF(z); IN_SIZE(in_n); IN_BUF(buf, in_n); SNAP_BUF(buf, in_n);
@@ -355,7 +370,7 @@ void h_buffer_slurp(void) {
   CHECK(POST_LPS_CURSOR(r, x.data, x.size, buf, in_n), "buffer_slurp: input advanced by prefix + length");
   CHECK(POST_LPS_FAIL(r, x.data, x.size, buf, in_n), "buffer_slurp: on failure the input is still a suffix of the original");
   CHECK(POST_BUFREAD(r, &z, buf, in_n, in_size, in_alloc, old_data), "buffer_slurp: buffer = copy of the payload on success, untouched on failure");
-  CANARY();
+  CANARY_SMALL(in_alloc <= 64 && in_n <= 64);
 }
 void h_buffer_import(void) {
   MK_BUF(z); IN_SIZE(in_n); IN_BUF(buf, in_n); SNAP_BUF(buf, in_n);
@@ -366,5 +381,5 @@ void h_buffer_import(void) {
   CHECK(POST_LPS_RET(r, buf, in_n), "buffer_import: succeeds iff a complete length-prefixed slice is at the front");
   CHECK(POST_BUFREAD(r, &z, buf, in_n, in_size, in_alloc, old_data), "buffer_import: buffer = copy of the payload on success, untouched on failure");
   CHECK(x.data == buf && x.size == in_n && x.alloc == 5, "buffer_import: the source slice is not modified");
-  CANARY();
+  CANARY_SMALL(in_alloc <= 64 && in_n <= 64);
 }
